@@ -85,39 +85,15 @@ func checkC12(c *Ctx) (string, []string) {
 		c12Minimality(c, f)
 	}
 	c12Encoders(c)
-	// sibling agreement: the PVM reader is the protocol decoder with a different error channel
-	c.Rule("C12.siblings", "PVM.ReadUintVariable and types.Decoder.DecodeUint are the same decoder: after renaming the data parameter, their sets of branch conditions and the expressions of the values they return are identical (a fast path, mask or bound changed in one copy only is a difference)", 2)
-	{
-		a := c.Fn("internal/types", "Decoder.DecodeUint")
-		b := c.Fn("PVM", "ReadUintVariable")
-		if a != nil && b != nil {
-			oa := shapeOpts
-			oa.swap = [2]int{0, 1}
-			conds := func(f *ssa.Function, o exprOpts) []string {
-				set := map[string]bool{}
-				allInstrs(f, func(in ssa.Instruction) {
-					if i, ok := in.(*ssa.If); ok {
-						set[exprStr(i.Cond, o)] = true
-					}
-				})
-				return keysOf(set)
-			}
-			vals := func(f *ssa.Function, o exprOpts) []string {
-				set := map[string]bool{}
-				allInstrs(f, func(in ssa.Instruction) {
-					if r, ok := in.(*ssa.Return); ok {
-						if rr := retResults(r); len(rr) > 0 {
-							set[exprStr(rr[0], o)] = true
-						}
-					}
-				})
-				return keysOf(set)
-			}
-			ca, cb := conds(a, oa), conds(b, shapeOpts)
-			c.Check(strings.Join(ca, " ; ") == strings.Join(cb, " ; "), "C12.siblings", "types.DecodeUint ~ PVM.ReadUintVariable · conditions", b.Pos(), fmt.Sprintf("%d identical branch conditions", len(ca)), fmt.Sprintf("branch conditions differ: only in DecodeUint %v ;; only in ReadUintVariable %v", abbrAll(diffStrings(ca, cb)), abbrAll(diffStrings(cb, ca))))
-			va, vb := vals(a, oa), vals(b, shapeOpts)
-			c.Check(strings.Join(va, " ; ") == strings.Join(vb, " ; "), "C12.siblings", "types.DecodeUint ~ PVM.ReadUintVariable · values", b.Pos(), fmt.Sprintf("%d identical returned value expressions", len(va)), fmt.Sprintf("returned values differ: only in DecodeUint %v ;; only in ReadUintVariable %v", abbrAll(diffStrings(va, vb)), abbrAll(diffStrings(vb, va))))
+	// what every decoder returns, bit by bit (replaces the former sibling comparison of two of them, which
+	// reported any rewrite of one copy)
+	c.Rule("C12.decoded-value", "for every first byte p (l = its leading one bits) and every input length in {1..l, l+1, l+2, 9, 10, 16}, each of the five decoders — followed with p and the length as constants and the payload bytes symbolic, data-dependent tests both ways — never indexes or slices outside the input, fails on every path when fewer than l+1 bytes are present, and on every successful return yields exactly: bit j of the value = bit j mod 8 of input byte 1 + ⌊j/8⌋ for j < 8l, the bits of p below its leading ones and the terminating zero at positions 8l.., zero above (the whole of bytes 1..8 for p = 0xFF), and l+1 as the number of bytes consumed where that is reported", 45)
+	for _, ni := range natImpls {
+		f := c.Fn(ni.rel, ni.dec)
+		if f == nil {
+			continue
 		}
+		c12DecodedValue(c, f)
 	}
 	return "Natural-number codec mechanisms decided statically over the five implementations (protocol codec, legacy serializer, PVM reader, telemetry, fuzz): every index/slice of the input in the decoders is proven in bounds by a linear-arithmetic argument from the dominating length comparisons (truncated input cannot be read past its end, and is rejected by those comparisons); every multi-byte success return is guarded by the minimality lower bound (2^(7l), 2^56 for the 0xFF form); the encoders select the 9-byte form exactly from 2^56 (explicit threshold, or a search loop over l = 0..7 with the range test 2^(7l) <= x < 2^(7(l+1))) and build the prefix as 256 - 2^(8-l) + floor(x / 2^(8l)).",
 		[]string{"go/ssa; linear bounds prover (dominating comparisons, rotated-loop phi facts, field-load versions, pure-getter inlining)", "not decided: bijection on all 2^64 values, agreement of the emitted remainder bytes (little-endian order) beyond the shared helper calls"}
@@ -165,80 +141,132 @@ func byteOrigin(v ssa.Value, d int) bool {
 }
 
 func c12Minimality(c *Ctx, f *ssa.Function) {
-	// lower-bound edges per compared value
-	type lb struct {
-		e     edge
-		bound ssa.Value
+	// A guard on the assembled value v is a minimality bound when, as a function of v (and of the byte count l, the
+	// only other non-constant leaf of the test), it rejects 2^(7l) − 1 and passes 2^(7l) for l = 1..7 — or, without
+	// another leaf, rejects 2^56 − 1 and passes 2^56. Decided by evaluating the test; its written form
+	// (v < 1<<(7l), v>>(7l) == 0, a negated ≥, operands exchanged …) does not matter.
+	type guard struct {
+		e    edge
+		kind string
 	}
-	lbs := map[ssa.Value][]lb{}
-	for _, b := range f.Blocks {
-		ifi, ok := b.Instrs[len(b.Instrs)-1].(*ssa.If)
-		if !ok {
-			continue
+	var leavesOf func(v, stop ssa.Value, d int, out map[ssa.Value]bool, found *bool)
+	leavesOf = func(v, stop ssa.Value, d int, out map[ssa.Value]bool, found *bool) {
+		if v == stop {
+			*found = true
+			return
 		}
-		cond := ifi.Cond
-		pol := true
-		for {
-			if u, ok := cond.(*ssa.UnOp); ok && u.Op == token.NOT {
-				cond, pol = u.X, !pol
+		if _, isC := v.(*ssa.Const); isC {
+			return
+		}
+		if d > 8 {
+			out[v] = true
+			return
+		}
+		switch x := v.(type) {
+		case *ssa.BinOp:
+			leavesOf(x.X, stop, d+1, out, found)
+			leavesOf(x.Y, stop, d+1, out, found)
+		case *ssa.UnOp:
+			if x.Op == token.MUL || x.Op == token.ARROW {
+				out[v] = true
+				return
+			}
+			leavesOf(x.X, stop, d+1, out, found)
+		case *ssa.Convert:
+			leavesOf(x.X, stop, d+1, out, found)
+		case *ssa.ChangeType:
+			leavesOf(x.X, stop, d+1, out, found)
+		default:
+			out[v] = true
+		}
+	}
+	guardsOf := func(v ssa.Value) []guard {
+		var out []guard
+		for _, b := range f.Blocks {
+			ifi, ok := b.Instrs[len(b.Instrs)-1].(*ssa.If)
+			if !ok {
 				continue
 			}
-			break
-		}
-		bo, ok := cond.(*ssa.BinOp)
-		if !ok {
-			continue
-		}
-		var v, bound ssa.Value
-		passTrue := false
-		switch bo.Op {
-		case token.LSS: // v < L  → pass on false ; L < v → pass on true (strict, still a lower bound)
-			v, bound, passTrue = bo.X, bo.Y, false
-		case token.GEQ: // v >= L → pass on true
-			v, bound, passTrue = bo.X, bo.Y, true
-		case token.LEQ: // L <= v → pass on true
-			v, bound, passTrue = bo.Y, bo.X, true
-		case token.GTR: // L > v → pass on false
-			v, bound, passTrue = bo.Y, bo.X, false
-		default:
-			continue
-		}
-		if !pol {
-			passTrue = !passTrue
-		}
-		succ := 1
-		if passTrue {
-			succ = 0
-		}
-		lbs[stripConv(v)] = append(lbs[stripConv(v)], lb{edge{b, succ}, bound})
-	}
-	boundKind := func(b ssa.Value) string {
-		b = stripConv(b)
-		if k, ok := constInt(b); ok {
-			if uint64(k) == uint64(1)<<56 {
-				return "2^56"
+			leaves := map[ssa.Value]bool{}
+			found := false
+			leavesOf(ifi.Cond, v, 0, leaves, &found)
+			if !found || len(leaves) > 1 {
+				continue
 			}
-			return fmt.Sprintf("const %d", k)
-		}
-		if sh, ok := b.(*ssa.BinOp); ok && sh.Op == token.SHL {
-			if one, ok := constInt(sh.X); ok && one == 1 {
-				if m, ok := stripConv(sh.Y).(*ssa.BinOp); ok && m.Op == token.MUL {
-					var other ssa.Value
-					if k, ok := constInt(m.X); ok && k == 7 {
-						other = m.Y
-					} else if k, ok := constInt(m.Y); ok && k == 7 {
-						other = m.X
+			var leaf ssa.Value
+			for l := range leaves {
+				leaf = l
+			}
+			eval := func(vv, lv int64) (int64, bool) {
+				env := intEnv{params: map[ssa.Value]int64{}, lens: map[ssa.Value]int64{}, unknown: map[ssa.Value]bool{}, cells: map[ssa.Value]int64{}}
+				env.opaque = func(y ssa.Value) (int64, bool) {
+					switch y {
+					case v:
+						return vv, true
+					case leaf:
+						return lv, leaf != nil
 					}
-					if other != nil {
-						if _, isBin := stripConv(other).(*ssa.BinOp); !isBin {
-							return "2^(7l)"
-						}
-						return "2^(7·(" + exprStr(other, exprOpts{}) + "))"
+					return 0, false
+				}
+				return evalInt(ifi.Cond, env, 0)
+			}
+			for succ := 0; succ < 2; succ++ {
+				passes := func(vv, lv int64) (bool, bool) {
+					k, ok := eval(vv, lv)
+					return (k != 0) == (succ == 0), ok
+				}
+				kind := ""
+				if leaf == nil {
+					lo, ok1 := passes(1<<56-1, 0)
+					hi, ok2 := passes(1<<56, 0)
+					top, ok3 := passes(-1, 0)
+					if ok1 && ok2 && ok3 && !lo && hi && top {
+						kind = "2^56"
+					}
+				} else {
+					all := true
+					for l := int64(1); l <= 7 && all; l++ {
+						lo, ok1 := passes(1<<(7*uint(l))-1, l)
+						hi, ok2 := passes(1<<(7*uint(l)), l)
+						top, ok3 := passes(1<<(8*uint(l))-1, l)
+						all = ok1 && ok2 && ok3 && !lo && hi && top
+					}
+					if all {
+						kind = "2^(7l)"
 					}
 				}
+				if kind == "" {
+					// some other monotone lower bound? (reported to explain a miss)
+					if leaf == nil {
+						if lo, ok1 := passes(0, 0); ok1 && !lo {
+							if hi, ok2 := passes(-1, 0); ok2 && hi {
+								out = append(out, guard{edge{b, succ}, "another bound: " + abbr(exprStr(ifi.Cond, exprOpts{}))})
+							}
+						}
+					} else if lo, ok1 := passes(0, 3); ok1 && !lo {
+						if hi, ok2 := passes(-1, 3); ok2 && hi {
+							out = append(out, guard{edge{b, succ}, "another bound: " + abbr(exprStr(ifi.Cond, exprOpts{}))})
+						}
+					}
+					continue
+				}
+				out = append(out, guard{edge{b, succ}, kind})
 			}
 		}
-		return exprStr(b, exprOpts{})
+		return out
+	}
+	// decide one carried value at one program point
+	decide := func(v ssa.Value, at ssa.Instruction) (ok bool, kinds []string) {
+		var good []edge
+		for _, g := range guardsOf(v) {
+			if guardedByPhi(f, at, []edge{g.e}) {
+				kinds = append(kinds, g.kind)
+			}
+			if g.kind == "2^56" || g.kind == "2^(7l)" {
+				good = append(good, g.e)
+			}
+		}
+		return guardedByPhi(f, at, good), kinds
 	}
 	n := 0
 	allInstrs(f, func(in ssa.Instruction) {
@@ -252,29 +280,59 @@ func c12Minimality(c *Ctx, f *ssa.Function) {
 		}
 		n++
 		key := fmt.Sprintf("%s · success return #%d", funcKey(f), n)
-		cands := []ssa.Value{stripConv(v)}
-		if p, ok := stripConv(v).(*ssa.Phi); ok {
-			for _, e := range p.Edges {
-				cands = append(cands, stripConv(e))
-			}
-		}
-		var kinds []string
-		guarded := false
-		for _, cv := range cands {
-			for _, l := range lbs[cv] {
-				k := boundKind(l.bound)
-				if guardedByPhi(f, r, []edge{l.e}) {
-					kinds = append(kinds, k)
-					if k == "2^56" || k == "2^(7l)" {
-						guarded = true
+		sv := stripConv(v)
+		guarded, kinds := decide(sv, r)
+		if !guarded {
+			if p, isPhi := sv.(*ssa.Phi); isPhi && p.Block() == r.Block() {
+				// a merged return: each incoming multi-byte value is guarded before it arrives
+				guarded = true
+				for k, e := range p.Edges {
+					if byteOrigin(e, 0) {
+						continue
+					}
+					pred := p.Block().Preds[k]
+					g, ks := decide(stripConv(e), pred.Instrs[len(pred.Instrs)-1])
+					kinds = append(kinds, ks...)
+					if !g {
+						guarded = false
 					}
 				}
 			}
 		}
+		if !guarded {
+			// a value carried to the return through phis (a search loop that keeps the accepted candidate): some
+			// multi-byte incoming value is guarded on every path to the return
+			seen := map[ssa.Value]bool{}
+			var walk func(x ssa.Value, d int)
+			walk = func(x ssa.Value, d int) {
+				x = stripConv(x)
+				if seen[x] || d > 3 || guarded {
+					return
+				}
+				seen[x] = true
+				if p, isPhi := x.(*ssa.Phi); isPhi {
+					for _, e := range p.Edges {
+						walk(e, d+1)
+					}
+					return
+				}
+				if _, isC := x.(*ssa.Const); isC || byteOrigin(x, 0) {
+					return
+				}
+				g, ks := decide(x, r)
+				kinds = append(kinds, ks...)
+				if g {
+					guarded = true
+				}
+			}
+			if p, isPhi := sv.(*ssa.Phi); isPhi && p.Block() != r.Block() {
+				walk(sv, 0)
+			}
+		}
 		if guarded {
-			c.OK("C12.minimality", key, r.Pos(), "guarded by lower bound %v", kinds)
+			c.OK("C12.minimality", key, r.Pos(), "guarded by lower bound %v (threshold evaluated: rejects 2^(7l) − 1, passes 2^(7l), l = 1..7; 2^56 for the 9-byte form)", uniqSorted(kinds))
 		} else if len(kinds) > 0 {
-			c.Bad("C12.minimality", key, r.Pos(), "the only lower bounds guarding this multi-byte result are %v, not 2^(7l) / 2^56: over-long encodings are accepted", kinds)
+			c.Bad("C12.minimality", key, r.Pos(), "the only lower bounds guarding this multi-byte result are %v, not 2^(7l) / 2^56: over-long encodings are accepted", uniqSorted(kinds))
 		} else {
 			c.Bad("C12.minimality", key, r.Pos(), "a value assembled from several input bytes (%s) is returned without any lower-bound check: non-minimal encodings are accepted", abbr(exprStr(v, shapeOpts)))
 		}
@@ -497,4 +555,197 @@ func diffStrings(a, b []string) []string {
 		}
 	}
 	return out
+}
+
+// c12DecodedValue: bit-provenance abstract interpretation of one decoder over
+// the partitions (first byte, input length); see bitfield.go.
+func c12DecodedValue(c *Ctx, f *ssa.Function) {
+	// where the input enters: a []byte parameter, or a receiver object with a []byte field and an integer position
+	dataParam, recvParam := -1, -1
+	var dataField, posField = -1, -1
+	for i, p := range f.Params {
+		if isByteSlice(p.Type()) {
+			dataParam = i
+		}
+	}
+	if dataParam < 0 && len(f.Params) > 0 {
+		if pt, ok := f.Params[0].Type().Underlying().(*types.Pointer); ok {
+			if st, ok := pt.Elem().Underlying().(*types.Struct); ok {
+				for k := 0; k < st.NumFields(); k++ {
+					if isByteSlice(st.Field(k).Type()) && dataField < 0 {
+						dataField = k
+					} else if _, _, isInt := bfWidth(st.Field(k).Type()); isInt && posField < 0 {
+						posField = k
+					}
+				}
+				if dataField >= 0 && posField >= 0 {
+					recvParam = 0
+				}
+			}
+		}
+	}
+	if dataParam < 0 && recvParam < 0 {
+		c.Unknown("C12.decoded-value", funcKey(f), f.Pos(), "cannot tell where the input bytes enter this decoder")
+		return
+	}
+	res := f.Signature.Results()
+	errT := types.Universe.Lookup("error").Type()
+	success := func(r []any) (ok, decided bool) {
+		if len(r) != res.Len() {
+			return false, false
+		}
+		last := r[len(r)-1]
+		if types.Identical(res.At(res.Len()-1).Type(), errT) {
+			e, isE := last.(bfErr)
+			return isE && !e.nonNil, isE
+		}
+		i, isI := last.(bfInt)
+		if !isI {
+			return false, false
+		}
+		k, conc := i.concrete()
+		if !conc {
+			return false, false
+		}
+		if named, isN := res.At(res.Len() - 1).Type().(*types.Named); isN && named.Obj().Name() == "ExitReason" {
+			return k == 0, true
+		}
+		return k != 0, true // (value, bytes consumed): zero consumed reports failure
+	}
+	usedIdx := -1
+	for k := 1; k < res.Len(); k++ {
+		if b, ok := res.At(k).Type().Underlying().(*types.Basic); ok && b.Kind() == types.Int {
+			usedIdx = k
+		}
+	}
+	for l := 0; l <= 8; l++ {
+		key := fmt.Sprintf("%s · l=%d", funcKey(f), l)
+		bad, undecided := "", ""
+		parts, successes := 0, 0
+		lo, hi := 0, 0 // prefixes with exactly l leading ones
+		switch {
+		case l == 8:
+			lo, hi = 0xFF, 0xFF
+		default:
+			lo = 0x100 - (1 << uint(8-l))
+			hi = lo + (1 << uint(7-l)) - 1
+		}
+		lens := map[int]bool{l + 1: true, l + 2: true, 9: true, 10: true, 16: true}
+		for n := 1; n <= l; n++ {
+			lens[n] = true
+		}
+		for p := lo; p <= hi && bad == "" && undecided == ""; p++ {
+			for n := range lens {
+				if bad != "" || undecided != "" {
+					break
+				}
+				parts++
+				arr := &bfArray{el: make([]bfInt, n)}
+				arr.el[0] = bfConst(uint64(p), 8, false)
+				for i := 1; i < n; i++ {
+					v := bfInt{w: 8}
+					for j := 0; j < 8; j++ {
+						v.b[j] = bfBit{k: 2, i: uint16(8*i + j)}
+					}
+					arr.el[i] = v
+				}
+				m := &bfMachine{maxSteps: 20000}
+				heap := bfHeap{}
+				args := make([]any, len(f.Params))
+				for i := range args {
+					args[i] = bfUnknown{"parameter"}
+				}
+				if dataParam >= 0 {
+					args[dataParam] = bfSlice{root: arr, lo: 0, hi: n}
+				} else {
+					m.nextObj++
+					heap[m.nextObj] = map[int]any{dataField: bfSlice{root: arr, lo: 0, hi: n}, posField: bfConst(0, 64, true)}
+					args[recvParam] = bfPtr{obj: m.nextObj, field: -1}
+				}
+				where := fmt.Sprintf("first byte 0x%02X, %d input byte(s)", p, n)
+				for _, o := range m.call(f, args, heap, 0) {
+					if o.fault != "" {
+						if o.panics {
+							bad = where + ": " + o.fault + " (Go runtime panic on untrusted input)"
+						} else {
+							undecided = where + ": " + o.fault
+						}
+						break
+					}
+					ok, decided := success(o.results)
+					if !decided {
+						undecided = where + ": the success status of a return is not determined"
+						break
+					}
+					if !ok {
+						continue
+					}
+					if n < l+1 {
+						bad = where + ": a truncated encoding is accepted"
+						break
+					}
+					successes++
+					v, isInt := o.results[0].(bfInt)
+					if !isInt {
+						undecided = where + ": the decoded value is not an integer the domain follows"
+						break
+					}
+					for j := 0; j < 64 && bad == ""; j++ {
+						var want bfBit
+						switch {
+						case j < 8*l:
+							want = bfBit{k: 2, i: uint16(8*(1+j/8) + j%8)}
+						case l < 8 && j < 8*l+(7-l):
+							if (p&(0xFF>>uint(l+1)))>>uint(j-8*l)&1 == 1 {
+								want = bfBit{k: 1}
+							}
+						}
+						var got bfBit
+						if j < int(v.w) {
+							got = v.b[j]
+						}
+						if got != want {
+							bad = fmt.Sprintf("%s: bit %d of the decoded value is %s, the encoding defines %s (value %s)", where, j, bfBitString(got), bfBitString(want), v)
+						}
+					}
+					if bad == "" && usedIdx >= 0 {
+						u, isInt := o.results[usedIdx].(bfInt)
+						k, conc := u.concrete()
+						if !isInt || !conc || int(k) != l+1 {
+							bad = fmt.Sprintf("%s: %v bytes reported consumed, the encoding has %d", where, o.results[usedIdx], l+1)
+						}
+					}
+					if bad == "" && recvParam >= 0 {
+						if pos, isInt := o.heap[1][posField].(bfInt); isInt {
+							if k, conc := pos.concrete(); !conc || int(k) != l+1 {
+								bad = fmt.Sprintf("%s: the reader advanced to %v, the encoding has %d bytes", where, pos, l+1)
+							}
+						}
+					}
+				}
+			}
+		}
+		switch {
+		case bad != "":
+			c.Bad("C12.decoded-value", key, f.Pos(), "%s", bad)
+		case undecided != "":
+			c.Unknown("C12.decoded-value", key, f.Pos(), "%s", undecided)
+		case successes == 0:
+			c.Bad("C12.decoded-value", key, f.Pos(), "no input with %d leading one bits in its first byte is ever decoded successfully", l)
+		default:
+			c.OK("C12.decoded-value", key, f.Pos(), "%d partitions (first byte × length) followed: in range, truncated input rejected, %d successful returns with the defined bit provenance", parts, successes)
+		}
+	}
+}
+
+func bfBitString(b bfBit) string {
+	switch b.k {
+	case 0:
+		return "0"
+	case 1:
+		return "1"
+	case 2:
+		return fmt.Sprintf("bit %d of input byte %d", b.i%8, b.i/8)
+	}
+	return "not determined"
 }
